@@ -122,14 +122,14 @@ def random_trace(args):
             args_ = [line]
         else:
             args_ = [n]
-        pre_in = (n in real.h) if a in ("del", "pop", "get") else ((n in real.c) if a in ("cdel", "cget") else None)
+        pre_in = int(n in real.h) if a in ("del", "pop", "get") else (int(n in real.c) if a in ("cdel", "cget") else -1)
         obs = real.step(a, [t2s(x) for x in args_])
         ev.append({"a": a, "args": [t2s(x) for x in args_], "obs": obs, "pre_in": pre_in})
         if a in ("del", "pop"):
             can_cont = False
         elif a == "add" or (a == "parseline" and args_[0][:1] not in (" ", "\t", "")):
             can_cont = obs["err"] == "none" or can_cont
-        if pre_in and obs["err"] != "none":
+        if pre_in == 1 and obs["err"] != "none":
             break               # a present name that cannot be read / deleted: the trace ends at the anomaly
     return {"id": tid, "cfg": {}, "ev": ev}
 
